@@ -904,15 +904,16 @@ def replay_channel_index(vals, oid):
         nc = int(rng.integers(1, 40))
         geom = np.c_[rng.integers(0, 4, nc) * 3.0, rng.integers(0, 12, nc) * 4.0]          # 3-4-5 lattice: distance 5.0, 10.0, ... occur exactly
         radius = float(rng.choice([0.0, 3.0, 4.0, 5.0, 10.0, 12.5]))
-        got = U.make_channel_index(geom, radius=radius)
+        pad = [None, None, -1, 10 ** 6][t % 4]          # the padding value is the caller's: the index of its NaN row (default: one past the last channel; -1 = last row of an array)
+        got = U.make_channel_index(geom, radius=radius) if pad is None else U.make_channel_index(geom, radius=radius, pad_val=pad)
         d2 = ((geom[:, None, :] - geom[None, :, :]) ** 2).sum(-1)
         rows = [np.flatnonzero(d2[c] <= radius ** 2) for c in range(nc)]
         width = max(len(r_) for r_ in rows)
-        want = np.full((nc, width), nc, dtype=int)
+        want = np.full((nc, width), nc if pad is None else pad, dtype=int)
         for c, r_ in enumerate(rows):
             want[c, :len(r_)] = r_
         if got.shape != want.shape or not np.array_equal(got, want):
-            bad.append({"nc": nc, "radius": radius, "shape": got.shape, "expected_shape": want.shape})
+            bad.append({"nc": nc, "radius": radius, "pad_val": pad, "shape": got.shape, "expected_shape": want.shape})
     return {"failed": bool(bad), "examples": bad[:3]}
 
 
@@ -1044,6 +1045,54 @@ def h_channel_index(H):
         it.ctx.oblige("neighbours.row.padding", A.forall([k], lambda: z3.Implies(z3.And(k >= cnt, k < width), tab.read((c, k)) == nc)), "post", "the rest of the row holds the pad value nc", assume=False)
         it.ctx.oblige("neighbours.row.frame", A.forall([r, c2], lambda: z3.Implies(z3.And(r >= 0, r < nc, r != c, c2 >= 0, c2 < width), tab.read((r, c2)) == t0((r, c2)))), "post", "only row c is written", assume=False)
     S2.explore(row)
+
+    # the padding value is the caller's (index of its NaN row: -1 for the last row of an array, any other number): prologue + one row with a symbolic pad_val
+    S3 = H.session("channel_index.pad_val")
+
+    def padded(it):
+        nc, pad = z3.Ints("nc pad_val")
+        radius = z3.Real("radius")
+        it.ctx.assume(z3.And(nc >= 1, radius >= 0))
+        H.input(nc=nc, pad_val=pad)
+        geom = A.fresh_array("geom", "float64", (nc, 2))
+        D = A.fresh_array("pairwise_distance", "float64", (nc, nc))
+        i, j = z3.Ints("i j")
+        it.ctx.assume(z3.ForAll([i, j], z3.Implies(z3.And(i >= 0, i < nc, j >= 0, j < nc), z3.And(D.uf(i, j) == D.uf(j, i), D.uf(i, j) >= 0)), patterns=[D.uf(i, j)]))
+        it.ctx.assume(z3.ForAll([i], z3.Implies(z3.And(i >= 0, i < nc), D.uf(i, i) == 0), patterns=[D.uf(i, i)]))
+        it.session.contracts[SD.pdist] = lambda it_, a, k: "PDIST"
+        it.session.contracts[SD.squareform] = lambda it_, a, k: D
+        node, filename = I.SOURCES.funcdef(FN)
+        loop = [n_ for n_ in node.body if isinstance(n_, ast.For)]
+        if len(loop) != 1:
+            raise I.Unsupported("cannot identify the per-channel loop of make_channel_index()")
+        loop = loop[0]
+        env = I.Env(None, FN.__globals__, qualname="make_channel_index", filename=filename)
+        env.funcnode = node
+        env.vars.update(dict(geom=geom, radius=SV(radius), pad_val=SV(pad)))
+        it.ctx.func = env.qualname
+        it.exec_block(node.body[:node.body.index(loop)], env)
+        tab = _chan_var(env)
+        width = A.T(tab.shape[1])
+        sums = [q for q in it.ctx.reduce_log if q["name"] == "sum"]
+        if len(sums) != 1:
+            raise I.Unsupported("cannot identify the neighbour counts in make_channel_index()")
+        c = z3.Int("c_channel")
+        it.ctx.assume(z3.And(c >= 0, c < nc))
+        it.assign(loop.target, SV(c), env)
+        it.exec_stmt(loop.body[0], env)
+        w = [q for q in it.ctx.where_log if q["ndim"] == 1]
+        if not w:
+            raise I.Unsupported("cannot identify the selection of one channel's neighbours")
+        w = w[-1]
+        it.ctx.assume(sums[0]["out"](c) == w["count"])
+        it.exec_block(list(loop.body[1:]), env)
+        k = z3.Int("k")
+        cnt = w["count"]
+        it.ctx.oblige("neighbours.pad_val.members_first", A.forall([k], lambda: z3.Implies(z3.And(k >= 0, k < cnt), z3.And(tab.read((c, k)) == w["rows"](k), tab.read((c, k)) >= 0, tab.read((c, k)) < nc))), "post",
+                      "whatever the padding value, row c starts with the channels within the radius, ascending", assume=False)
+        it.ctx.oblige("neighbours.pad_val.rest_is_the_callers_value", A.forall([k], lambda: z3.Implies(z3.And(k >= cnt, k < width), tab.read((c, k)) == pad)), "post",
+                      "and the rest of the row holds the caller's padding value (below, within or above the channel numbers)", assume=False)
+    S3.explore(padded)
 
 
 def _chan_var(env):
